@@ -136,6 +136,13 @@ class ParseStream(runner.Stream):
                 fields.append(fld("timeout", ("int", 0, ("ref", "standby"), False, []), ("dflt", ("ref", "standby"))))
             one(simple_module("M", [("vr", "standby", vty, vlit), ("def", "Mode", None, enum), ("def", "Config", None, seq(fields))]),
                 "enum_item_vs_value")
+        # corpus (no finding): imported symbols called `from` / `From` (only the upper-case FROM is reserved)
+        one(simple_module("M", [("def", "A", None, INT)], imports=[(["until", "from"], "Other", None), (["Third"], "Elsewhere", [("n", "iso"), ("u", 2)])]),
+            "symbol_named_from")
+        one(simple_module("M", [("def", "A", None, INT)], imports=[(["until", "From", "from"], "Other", None)]), "symbol_named_from")
+        one(simple_module("M", [("def", "A", None, INT)], imports=[(["from"], "Other", None), (["fRom", "x"], "Third", None)]), "symbol_named_from")
+        one(simple_module("M", [("def", "A", None, ("int", ("ref", "from"), ("ref", "until"), False, []))],
+                          imports=[(["from", "until"], "Other", None)]), "symbol_named_from")
         # corpus (no finding): two value assignments whose names differ only in the case of a letter
         for n1, n2 in (("maxLen", "maxlen"), ("aB", "ab")):
             for order in ((n1, 4, n2, 8), (n2, 8, n1, 4)):
